@@ -25,133 +25,7 @@ impl<'de, R: Reader<'de>> Parser<R> {
     #[verifier::external_body]
     pub fn error(&self, reason: ErrorCode) -> (e: Error) { Error { code: reason } }
 
-//@extract file=src/parser.rs impl="Parser<R>" fn=skip_single_digit
-//@sig
-        requires old(self).read.wf(),
-        ensures final(self).read.wf(), final(self).read.data() == old(self).read.data(),
-            res.is_ok() <==> dig_at(old(self).read.data(), old(self).read.idx() as int),
-            res.is_ok() ==> final(self).read.idx() == old(self).read.idx() + 1 && res.unwrap() == old(self).read.data()[old(self).read.idx() as int],
-            final(self).read.idx() <= old(self).read.idx() + 1,
-            final(self).read.idx() >= old(self).read.idx(),
-            old(self).read.idx() <= old(self).read.data().len() ==> final(self).read.idx() <= old(self).read.data().len(),
-//@end
-
-//@extract file=src/parser.rs impl="Parser<R>" fn=skip_exponent
-//@sig
-        requires old(self).read.wf(), old(self).read.idx() <= old(self).read.data().len(),
-        ensures final(self).read.wf(), final(self).read.data() == old(self).read.data(),
-            res.is_ok() <==> exp_end(old(self).read.data(), old(self).read.idx() as int).is_some(),
-            res.is_ok() ==> final(self).read.idx() == exp_end(old(self).read.data(), old(self).read.idx() as int).unwrap(),
-            final(self).read.idx() <= old(self).read.data().len(),
-//@loop 1
-            invariant self.read.wf(), self.read.data() == old(self).read.data(),
-              self.read.idx() <= self.read.data().len(),
-              exp_end(old(self).read.data(), old(self).read.idx() as int) == Some(digits_end(self.read.data(), self.read.idx() as int)),
-            decreases self.read.data().len() - self.read.idx(),
-//@end
-
-//@extract file=src/parser.rs impl="Parser<R>" fn=do_skip_number
-//@sig
-        requires old(self).read.wf(), old(self).read.idx() >= 1,
-            old(self).read.idx() <= old(self).read.data().len(),
-            first == old(self).read.data()[old(self).read.idx() - 1],
-            first == 0x2d || is_digit(first),
-        ensures final(self).read.wf(), final(self).read.data() == old(self).read.data(),
-            res.is_ok() <==> number_end(old(self).read.data(), old(self).read.idx() - 1).is_some(),
-            res.is_ok() ==> final(self).read.idx() == number_end(old(self).read.data(), old(self).read.idx() - 1).unwrap(),
-            final(self).read.idx() <= old(self).read.data().len(),
-//@loop 1
-            invariant self.read.wf(), self.read.data() == old(self).read.data(),
-                self.read.idx() <= self.read.data().len(),
-                number_end(old(self).read.data(), old(self).read.idx() - 1) == num_tail(self.read.data(), self.read.idx() as int, is_float),
-            decreases self.read.data().len() - self.read.idx(),
-//@after /let v = unsafe \{ i8x32::from_slice_unaligned_unchecked\(chunk\) \};/
-            let ghost base = self.read.idx() as int;
-            let ghost dat = self.read.data();
-//@after /let mut nondigits =/
-            proof {
-                assert forall|j: int| 0 <= j < 32 implies bit32(nondigits, j) == !is_digit(#[trigger] chunk@[j]) by {
-                    assert(v.lanes[j] == chunk@[j]);
-                    assert(zero.lanes[j] == 48u8);
-                    assert(nine.lanes[j] == 57u8);
-                    assert((48u8 as i8) == 48i8);
-                    let x = chunk@[j];
-                    assert(((48i8 > (x as i8)) || ((x as i8) > 57i8)) == !is_digit(x)) by (bit_vector);
-                }
-                assert forall|j: int| self.read.idx() <= j < self.read.idx() + 32 implies is_digit(#[trigger] self.read.data()[j]) == !bit32(nondigits, j - self.read.idx()) by {
-                    assert(self.read.data()[j] == chunk@[j - self.read.idx()]);
-                }
-            }
-//@after /let mut cnt = nondigits.trailing_zeros\(\) as usize;/
-                proof {
-                    lemma_tz32(nondigits);
-                    lemma_digits_run(self.read.data(), self.read.idx() as int, cnt as int);
-                }
-//@before /nondigits = nondigits.wrapping_shr\(cnt as u32\);/
-                    let ghost nd0 = nondigits;
-//@after /nondigits = nondigits.wrapping_shr\(cnt as u32\);/
-                    proof {
-                        assert forall|k: int| 0 <= k < 32 implies bit32(nondigits, k) == (k + cnt < 32 && bit32(nd0, k + cnt)) by {
-                            lemma_shr32(nd0, cnt as u32, k as u32);
-                        }
-                    }
-//@after /let offset = nondigits.trailing_zeros\(\) as usize;/
-                        proof {
-                            lemma_tz32(nondigits);
-                            assert(self.read.idx() == base + cnt);
-                            assert forall|j: int| base + cnt <= j < base + cnt + offset implies is_digit(#[trigger] dat[j]) by {
-                                assert(!bit32(nondigits, j - base - cnt));
-                                assert(!bit32(nd0, j - base));
-                            }
-                            assert(!is_digit(dat[base + cnt + offset])) by {
-                                assert(bit32(nondigits, offset as int));
-                                assert(bit32(nd0, offset + cnt));
-                            }
-                            lemma_digits_run(dat, base + cnt, offset as int);
-                        }
-//@before /self.read.eat\(32 - cnt\);/
-                        proof {
-                            assert(self.read.idx() == base + cnt);
-                            assert forall|j: int| base + cnt <= j < base + 32 implies is_digit(#[trigger] dat[j]) by {
-                                lemma_zero32((j - base - cnt) as u32);
-                                assert(!bit32(nondigits, j - base - cnt));
-                                assert(!bit32(nd0, j - base));
-                            }
-                            lemma_digits_run(dat, base + cnt, 32 - cnt);
-                        }
-//@before /self.read.eat\(32\);/
-            proof {
-                assert forall|j: int| 0 <= j < 32 implies !bit32(nondigits, j) by {
-                    lemma_zero32(j as u32);
-                }
-                lemma_digits_run(self.read.data(), self.read.idx() as int, 32);
-            }
-//@loop 2
-            invariant self.read.wf(), self.read.data() == old(self).read.data(),
-                self.read.idx() <= self.read.data().len(),
-                number_end(old(self).read.data(), old(self).read.idx() - 1) == num_tail(self.read.data(), self.read.idx() as int, is_float),
-            decreases self.read.data().len() - self.read.idx(),
-//@loop 3
-            invariant self.read.wf(), self.read.data() == old(self).read.data(),
-                self.read.idx() <= self.read.data().len(),
-                number_end(old(self).read.data(), old(self).read.idx() - 1) == num_tail(self.read.data(), self.read.idx() as int, true),
-            decreases self.read.data().len() - self.read.idx(),
-//@end
-
-//@extract file=src/parser.rs impl="Parser<R>" fn=skip_number
-//@sig
-        requires old(self).read.wf(), old(self).read.idx() >= 1,
-            old(self).read.idx() <= old(self).read.data().len(),
-            first == old(self).read.data()[old(self).read.idx() - 1],
-            first == 0x2d || is_digit(first),
-        ensures final(self).read.wf(), final(self).read.data() == old(self).read.data(),
-            res.is_ok() <==> number_end(old(self).read.data(), old(self).read.idx() - 1).is_some(),
-            res.is_ok() ==> final(self).read.idx() == number_end(old(self).read.data(), old(self).read.idx() - 1).unwrap()
-                && str_bytes(res.unwrap()) == old(self).read.data().subrange(old(self).read.idx() - 1, final(self).read.idx() as int),
-            final(self).read.idx() <= old(self).read.data().len(),
-//@before /let end = self.read.index\(\);/
-        proof { lemma_number_end_bounds(self.read.data(), start as int); }
-//@end
+//@include units/frag_number.vt.rs
 }
 
 } // verus!
